@@ -60,13 +60,11 @@ fn main() {
         let doc = read_replay(p);
         println!("members {} config {} : {}", doc["members"], doc["config"], doc["detail"]);
     }
-    let max_size = if thorough { 5 } else { 4 };
-    let mut subsets = combi::subsets(C07_POOL, 1, max_size);
-    // a registered vector without children must not produce a family
-    subsets.push(vec![0, 12]);
-    subsets.push(vec![12]);
-    rep.rule = format!("collector pool {:?} + an empty vector; all subsets of size <= {} x all registration orders (for sizes up to 3, thorough 4; one order above) x all registry-internal collect orders (observed through a Spy collector; fresh registries are rebuilt until all m! orders have been seen) x all iteration orders of the caller's common-label HashMap x 6 registry configurations (plain, prefix, 1/2/3 common labels incl. names sorting before and after the metrics' own labels, prefix+2); each gather() compared with the reference gather; all results for one (subset, config) must be identical. distinct = distinct canonical results", POOL[..C07_POOL].iter().map(|p| p.name).collect::<Vec<_>>(), max_size);
-    rep.bounds = json!({"subset_size": max_size, "pool": C07_POOL, "configs": configs().len()});
+    let max_size = if thorough { 4 } else { 3 };
+    let members = c07_members();
+    let subsets: Vec<Vec<usize>> = combi::subsets(members.len(), 1, max_size).into_iter().map(|s| s.iter().map(|&i| members[i]).collect()).collect();
+    rep.rule = format!("collector pool {:?}; all subsets of size <= {} x all registration orders (for sizes up to 3, thorough 4; one order above) x all registry-internal collect orders (observed through a Spy collector; fresh registries are rebuilt until all m! orders have been seen) x all iteration orders of the caller's common-label HashMap x 6 registry configurations (plain, prefix, 1/2/3 common labels incl. names sorting before and after the metrics' own labels, prefix+2); each gather() compared with the reference gather; all results for one (subset, config) must be identical. distinct = distinct canonical results", c07_members().iter().map(|i| POOL[*i].name).collect::<Vec<_>>(), max_size);
+    rep.bounds = json!({"subset_size": max_size, "pool": c07_members().len(), "configs": configs().len()});
     let work: Mutex<Vec<Vec<usize>>> = Mutex::new(subsets);
     let reports: Mutex<Vec<Report>> = Mutex::new(vec![]);
     std::thread::scope(|s| {
@@ -89,7 +87,7 @@ fn main() {
                             dumps.entry(dump).or_insert((run.reg_order.clone(), run.collect_order.clone(), run.label_order.clone()));
                             if first_bad.is_none() {
                                 if let Some((class, detail)) = compare(&got, &exp) {
-                                    first_bad = Some((class, detail.clone(), json!({"engine":"enum","members": run.members, "member_names": run.members.iter().map(|i| POOL.get(*i).map(|p| p.name).unwrap_or("empty vec")).collect::<Vec<_>>(), "config": format!("{:?}", run.cfg), "registration_order": run.reg_order, "collect_order": run.collect_order, "label_map_order": run.label_order, "detail": detail})));
+                                    first_bad = Some((class, detail.clone(), json!({"engine":"enum","members": run.members, "member_names": run.members.iter().map(|i| POOL[*i].name).collect::<Vec<_>>(), "config": format!("{:?}", run.cfg), "registration_order": run.reg_order, "collect_order": run.collect_order, "label_map_order": run.label_order, "detail": detail})));
                                 }
                             }
                         });
@@ -117,7 +115,7 @@ fn main() {
                             local.outcome(d);
                         }
                         if local.samples.len() < 2 {
-                            local.sample(json!({"members": members.iter().map(|i| POOL.get(*i).map(|p| p.name).unwrap_or("empty vec")).collect::<Vec<_>>(), "config": format!("{:?}", cfg), "gathers": gathers, "distinct_results": dumps.len()}));
+                            local.sample(json!({"members": members.iter().map(|i| POOL[*i].name).collect::<Vec<_>>(), "config": format!("{:?}", cfg), "gathers": gathers, "distinct_results": dumps.len()}));
                         }
                     }
                 }
